@@ -275,9 +275,23 @@ structure WState where
   blockStart : Bool := true     -- first_ordinal_of_the_block == num_terms
   lastBlockKey : Option Key := none  -- last_key_or_greater of the last closed block
 
+/-- extracted from the source: `find_shorter_str_in_between` asserts `left < right`, and
+`insert_key` runs it against the last key of the last closed block for the first key of a block -/
+def separatorGuard : Bool :=
+  Gen.SEPARATOR_ASSERT == 1 && Gen.SEPARATOR_CHECK_AT_BLOCK_START == 1
+
+/-- extracted from the source: `insert_key` asserts the modelled `increasing_keys` expression -/
+def increasingGuard : Bool := Gen.INCREASING_KEYS_ASSERT == 1
+
 /-- the assert of find_shorter_str_in_between, reached only for the first key of a block -/
 def WState.sepOk (s : WState) (k : Key) : Bool :=
-  if s.blockStart then (match s.lastBlockKey with | some l => lexLt l k | none => true) else true
+  if s.blockStart && separatorGuard then
+    (match s.lastBlockKey with | some l => lexLt l k | none => true)
+  else true
+
+/-- the assert on `increasing_keys` -/
+def incOk (prev k : Key) : Bool :=
+  if increasingGuard then decide (increasingKeys prev k = some true) else true
 
 /-- state after an accepted key: the block is closed iff its key bytes exceed `blockLen` -/
 def WState.next (blockLen : Nat) (s : WState) (k : Key) : WState :=
@@ -290,7 +304,7 @@ def WState.next (blockLen : Nat) (s : WState) (k : Key) : WState :=
 /-- one `Writer::insert`; `none` = panic (assert of insert_key, or the assert of
 find_shorter_str_in_between at a block start) -/
 def WState.insert (blockLen : Nat) (s : WState) (k : Key) : Option WState :=
-  if s.sepOk k = true ∧ increasingKeys s.prev k = some true then some (s.next blockLen k) else none
+  if s.sepOk k = true ∧ incOk s.prev k = true then some (s.next blockLen k) else none
 
 /-- index of the first rejected key, `none` if the whole sequence is accepted -/
 def firstRejected (blockLen : Nat) : WState → List Key → Nat → Option Nat
